@@ -404,6 +404,7 @@ func (f *fnState) modItem(e spec.Expr, ctx *specCtx, get func(string) *modSet) {
 			return
 		case "alloc":
 			get("G$alloc").any = true
+			get("G$lastalloc").any = true
 			return
 		case "written", "taken", "failed":
 			m := get("G$" + x.Fn)
@@ -549,7 +550,7 @@ func (f *fnState) havocModifies(fc *spec.FuncContract, ctx *specCtx, pre *env) {
 		s := f.cellSort[key]
 		if s == "" {
 			switch {
-			case key == "G$alloc":
+			case key == "G$alloc" || key == "G$lastalloc":
 				s = sInt
 			case key == "G$tr" || key == "G$written":
 				s = "(Array Int Tr)"
